@@ -407,7 +407,7 @@ void h_huge_geometry(void) {
 }
 #endif
 
-#if defined(HARNESS_h_span_alloc) || defined(HARNESS_h_span_free) || defined(HARNESS_h_page_free_full) || defined(HARNESS_h_seg_reclaim_full)
+#if defined(HARNESS_h_span_alloc) || defined(HARNESS_h_span_free) || defined(HARNESS_h_span_free_both) || defined(HARNESS_h_page_free_full) || defined(HARNESS_h_seg_reclaim_full) || defined(HARNESS_h_check_free)
 /* C01 item 5 / C07: span allocation, split, coalescing on a concrete slice layout (positions concrete, page contents, commit
    state, option values and OS answers symbolic).  Layout of the 8-slice segment:
        [0] info   [1..2] used page A   [3..6] free span F (in its span queue)   [7] used page B
@@ -480,7 +480,7 @@ void h_span_alloc(void) {
 }
 #endif
 
-#if defined(HARNESS_h_span_free) || defined(HARNESS_h_page_free_full) || defined(HARNESS_h_seg_reclaim_full)
+#if defined(HARNESS_h_span_free) || defined(HARNESS_h_span_free_both) || defined(HARNESS_h_page_free_full) || defined(HARNESS_h_seg_reclaim_full) || defined(HARNESS_h_check_free)
 /* exact byte-wise memset (CBMC's built-in memset rewrites the whole enclosing object, which defeats field sensitivity) */
 static size_t reset_lo, reset_hi;
 bool _mi_os_reset(void* addr, size_t size) { size_t o = (size_t)((uint8_t*)addr - (uint8_t*)&S); CHECK(o >= reset_lo && o + size <= reset_hi, "C13: a page reset stays inside the data area of the page being freed"); return true; }
@@ -526,7 +526,44 @@ void h_span_free(void) {
 }
 #endif
 
-#if defined(HARNESS_h_page_free_full) || defined(HARNESS_h_seg_reclaim_full)
+#ifdef HARNESS_h_span_free_both
+/* second layout: info | free L [1..2] | used page V [3..4] | free R [5..7]; freeing V merges with both neighbours; OWNED says whether
+   the segment is owned (spans queued) or abandoned (no queue may be touched) */
+void h_span_free_both(void) {
+  make_layout(true);
+  mi_segment_t* seg = &S.seg; mi_slice_t* sl = seg->slices;
+  opt_delay = -1; opt_extend = 1;
+  /* rewrite the slice map to the second layout */
+  mi_span_queue_for(4, &STLD)->first = mi_span_queue_for(4, &STLD)->last = NULL;
+  sl[1].slice_count = 2; sl[1].slice_offset = 0; sl[1].block_size = 0; sl[1].prev = sl[1].next = NULL; sl[2].slice_count = 0; sl[2].slice_offset = sizeof(mi_slice_t); sl[2].block_size = 0;
+  sl[3].slice_count = 2; sl[3].slice_offset = 0; sl[3].block_size = 2 * MI_SEGMENT_SLICE_SIZE; sl[3].used = 0; sl[3].capacity = 4; sl[3].is_committed = 1; sl[3].prev = sl[3].next = NULL;
+  sl[4].slice_count = 0; sl[4].slice_offset = sizeof(mi_slice_t); sl[4].block_size = 1;
+  sl[5].slice_count = 3; sl[5].slice_offset = 0; sl[5].block_size = 0; sl[5].prev = sl[5].next = NULL; sl[6].slice_count = 0; sl[6].block_size = 0; sl[6].slice_offset = sizeof(mi_slice_t);
+  sl[7].slice_count = 0; sl[7].slice_offset = 2 * sizeof(mi_slice_t); sl[7].block_size = 0;
+  seg->used = 1;
+#if OWNED
+  mi_span_queue_for(2, &STLD)->first = mi_span_queue_for(2, &STLD)->last = &sl[1];
+  mi_span_queue_for(3, &STLD)->first = mi_span_queue_for(3, &STLD)->last = &sl[5];
+#else
+  seg->thread_id = 0;                /* abandoned: its free spans are in no queue */
+#endif
+  reset_lo = 3 * MI_SEGMENT_SLICE_SIZE; reset_hi = 5 * MI_SEGMENT_SLICE_SIZE;
+  mi_slice_t* r = mi_segment_page_clear((mi_page_t*)&sl[3], &STLD);
+  CHECK(seg->used == 0, "used count decremented");
+  CHECK(r == &sl[1] && sl[1].slice_count == 7 && sl[1].slice_offset == 0 && sl[1].block_size == 0, "C01: the freed span merges with both free neighbours into one span");
+  CHECK(sl[7].slice_offset == 6 * sizeof(mi_slice_t) && sl[7].block_size == 0, "last slice of the merged span points back to its start");
+  CHECK(sl[3].slice_count == 0 && sl[3].slice_offset == 2 * sizeof(mi_slice_t), "the absorbed head slice points back to the new start");
+#if OWNED
+  { mi_slice_t* q = NULL; CHECK(total_queued() == 1 && queue_len(mi_span_queue_for(7, &STLD), &q) == 1 && q == &sl[1], "C01: the two neighbours left their queues; the merged span is queued once by its new size"); }
+#else
+  CHECK(total_queued() == 0, "C09: freeing a page of an abandoned segment touches no thread's span queues");
+#endif
+  CHECK(sl[0].slice_count == 1 && sl[0].block_size > 0, "info slice untouched");
+  WITNESS("end");
+}
+#endif
+
+#if defined(HARNESS_h_page_free_full) || defined(HARNESS_h_seg_reclaim_full) || defined(HARNESS_h_check_free)
 static int n_mark_abandoned, n_arena_free, n_map_freed; static size_t af_size, af_csize;
 void _mi_arena_segment_mark_abandoned(mi_segment_t* segment) { CHECK(segment == &S.seg && segment->thread_id == 0, "C09: a segment is published as abandoned only after its owner id was cleared"); CHECK(total_queued() == 0, "C09/C01: no span queue of the abandoning thread still refers to the published segment"); n_mark_abandoned++; }
 void _mi_segment_map_freed_at(const mi_segment_t* segment) { n_map_freed++; }
@@ -597,7 +634,7 @@ void h_page_free_full(void) {
 }
 #endif
 
-#if defined(HARNESS_h_segment_reclaim) || defined(HARNESS_h_seg_reclaim_full)
+#if defined(HARNESS_h_segment_reclaim) || defined(HARNESS_h_seg_reclaim_full) || defined(HARNESS_h_check_free)
 /* C09/C08: mi_segment_reclaim on a concrete slice layout (info slice, page of 1 slice, page of 2 slices; page fields
    symbolic): ownership is taken, every used page is re-associated with a heap of the caller and delayed freeing is
    re-enabled, all-free pages are cleared, an empty segment is freed exactly once */
@@ -654,6 +691,41 @@ void h_seg_reclaim_full(void) {
   CHECK(n_page_reclaim == 0 && STLD.count == 0 && STLD.reclaim_count == 0, "accounting");
   WITNESS("released");
 #endif
+}
+#endif
+
+#ifdef HARNESS_h_check_free
+/* C09: mi_segment_check_free (a thread looks at an abandoned segment before deciding to adopt it): pages whose last block was freed
+   meanwhile are released inside the abandoned segment without entering any thread's queues; pages with live blocks are not
+   touched; the answer says truthfully whether the segment can serve the request. */
+void h_check_free(void) {
+  make_layout(true);
+  mi_segment_t* seg = &S.seg; mi_slice_t* sl = seg->slices;
+  opt_delay = -1; opt_extend = 1;
+  mi_span_queue_for(4, &STLD)->first = mi_span_queue_for(4, &STLD)->last = NULL;
+  seg->thread_id = 0; seg->abandoned = 2; seg->abandoned_visits = 1;
+  mi_page_t* A = (mi_page_t*)&sl[1]; mi_page_t* B = (mi_page_t*)&sl[7];
+  /* AUSED / BUSED: 0 = every block freed, 1 = live blocks and a free one, 2 = live and full (concrete: the walk over the slice map must stay concrete) */
+  A->used = (AUSED == 0 ? 0 : AUSED == 1 ? 2 : 4); B->used = (BUSED == 0 ? 0 : BUSED == 1 ? 3 : 4); A->reserved = B->reserved = 4; A->capacity = B->capacity = 4;
+  const bool a_avail = (AUSED == 1), b_avail = (BUSED == 1);
+  A->xthread_free = B->xthread_free = MI_NEVER_DELAYED_FREE; A->free = A->local_free = B->free = B->local_free = NULL;
+  SNAPA = sl[1]; SNAPB = sl[7];
+  reset_lo = 0; reset_hi = 8 * MI_SEGMENT_SLICE_SIZE;
+  size_t bs = nd_size();
+  bool has = mi_segment_check_free(seg, NEED, bs, &STLD);
+  CHECK(seg->thread_id == 0 && total_queued() == 0, "C09: looking at an abandoned segment adds nothing to the looking thread's span queues and takes no ownership");
+  CHECK(seg->used == (AUSED != 0) + (BUSED != 0) && seg->abandoned == (AUSED != 0) + (BUSED != 0), "C09: exactly the pages whose last block was freed are released (counts stay equal: still a fully abandoned segment)");
+#if AUSED
+  CHECK(page_same(&sl[1], &SNAPA), "a page with live blocks is not touched");
+#endif
+#if BUSED
+  CHECK(page_same(&sl[7], &SNAPB), "a page with live blocks is not touched");
+#endif
+  { const size_t start = AUSED ? 3 : 1; const size_t cnt = (AUSED ? 4 : 6) + (BUSED ? 0 : 1);
+    CHECK(sl[start].slice_count == cnt && sl[start].block_size == 0 && sl[start + cnt - 1].slice_offset == (cnt - 1) * sizeof(mi_slice_t), "released pages are coalesced with the free space of the segment");
+    bool expect = (cnt >= NEED) || (AUSED && a_avail && bs == 2 * MI_SEGMENT_SLICE_SIZE) || (BUSED && b_avail && bs == MI_SEGMENT_SLICE_SIZE);
+    CHECK(has == expect, "the answer is true exactly when a free span of the needed length or a page of the requested block size with a free block exists"); }
+  WITNESS("end");
 }
 #endif
 
